@@ -73,7 +73,8 @@ class ComponentLevel1( NamedObject ):
       raise InvalidPlaceholderError( "Cannot define update block <{}> "
               "in a placeholder component.".format( blk.__name__ ) )
     name = blk.__name__
-    if name in s._dsl.name_upblk:
+    # (functions are a thing of the next level)
+    if name in s._dsl.name_upblk or name in getattr( s._dsl, "name_func", () ):
       raise UpblkFuncSameNameError( name )
 
     s._dsl.name_upblk[ name ] = blk
